@@ -11,8 +11,9 @@
   points store.
 -/
 import PdsVerif.Model.Cli
+import PdsVerif.Model.Stft
 namespace PdsVerif.C09
-open PdsVerif.Model.Cli
+open PdsVerif.Model PdsVerif.Model.Cli
 
 /-! ### the declarative side -/
 
@@ -85,6 +86,12 @@ def entries : List MapLine → List TUtt
 def manifestIds (o : TOpts) : List Nat := o.manifest.getD []
 
 /-! ### helper lemmas -/
+
+/-- the row count the driver uses is the number of frames of the STFT framing model (C01/C02) -/
+theorem stftRows_eq_full {α : Type} [Inhabited α] (c : Stft.Cfg) (x : List α) :
+    (Stft.full c x).length = stftRows c.L c.S x.length := by
+  unfold Stft.full stftRows
+  by_cases h : x.length < c.L / 2 + 1 <;> simp [h, Stft.cut]
 
 theorem applyPres_eq_chain (ks : List Nat) (t : Term) : applyPres ks t = chain (ks.map Term.pre) t := by
   unfold applyPres
